@@ -66,6 +66,35 @@ theorem F07_witness :
     (match (s.step {} { now := 4, recs := [(3, 0), (3, 0)] } (.rename (n!"/s") (n!"/s/t"))).2 with | .ok _ => true | .error _ => false) = true := by
   decide
 
+theorem pax_get_set_self (p : Pax) (k v : Name) : (p.set k v).get k = some v := by
+  induction p with
+  | nil => simp [Pax.set, Pax.get]
+  | cons kv rest ih =>
+    obtain ⟨k', v'⟩ := kv
+    simp only [Pax.set]
+    by_cases h1 : (k' == k) = true
+    · simp [h1, Pax.get]
+    · have h1' : (k' == k) = false := by simpa using h1
+      simp only [h1', Bool.false_eq_true, if_false]
+      by_cases h2 : nameLt k k' = true
+      · simp [h2, Pax.get]
+      · simp only [h2, Bool.false_eq_true, if_false]
+        have : (Pax.set rest k v).get k = some v := ih
+        simp only [Pax.get, List.find?_cons, h1', Bool.false_eq_true, if_false] at this ⊢
+        exact this
+
+/-- (4′) A recursive remove writes exactly one DELETE record per selected row, carrying that
+    row's own name: nothing outside the selection is named on the tape. -/
+theorem deleteItems_names (rows : List Row) (env : EnvRecs) :
+    (deleteItems rows env).1.map (·.name) = rows.map (·.name) ∧
+    ∀ h ∈ (deleteItems rows env).1, h.pax.get Gen.recSTFSRecordAction = some Gen.recSTFSRecordActionDelete := by
+  constructor
+  · simp [deleteItems, Row.toHdr, Row.name]
+  · intro h hh
+    simp only [deleteItems, List.mem_map] at hh
+    obtain ⟨r, _, rfl⟩ := hh
+    simp [paxV1, pax_get_set_self]
+
 /-- the name a `Move` record carries for the entry `n` when `from_` is renamed to `to` -/
 def movedName (from_ to n : Name) : Name :=
   pjoin [to, trimPrefix (trimPrefix n [slash]) (trimPrefix from_ [slash])]
